@@ -8,7 +8,7 @@ import subprocess
 import tempfile
 from concurrent.futures import ThreadPoolExecutor
 
-from .common import (BUILD, GEN, ROOT, Lock, Result, count_lines, driver_path, first_difference, harness_path, sh,
+from .common import (BUILD, ENV, GEN, ROOT, Lock, Result, count_lines, driver_path, first_difference, harness_path, sh,
                      standard_build)
 
 PROP = "C15"
@@ -82,7 +82,9 @@ def run(tier):
     # ---------------- generated + fixed + witness sequences on the implementation (release build)
     seqs = []
     if st["cargo"]:
-        rc, out, dt = sh([HARNESS, "gen", tier, DATA, tmp, prefix, caps], timeout=3000)
+        env = dict(ENV)
+        env["VERIF_C15_PHONE_SWEEP"] = "1"
+        rc, out, dt = sh([HARNESS, "gen", tier, DATA, tmp, prefix, caps], timeout=3000, env=env)
         res.notes["gen_s"] = round(dt, 1)
         try:
             seqs = split_seqs(open(prefix + ".seqs", encoding="utf-8").read())
@@ -104,7 +106,7 @@ def run(tier):
                 o = None
                 st["broken"].append({"obligation": "oracle-run", "detail": "%r\n%s" % (e, out[-1500:])})
             if o:
-                res.coverage["evaluations"] += o["calls"]
+                res.coverage["evaluations"] += o["calls"] + o.get("stats", {}).get("phone_to_bopomofo_calls", 0)
                 res.coverage["distinct_nontrivial"] += o["interrupted_protocols"]
                 res.coverage["traces_validated_against_impl"] = o["sequences"]
                 res.notes["oracle"] = {k: o[k] for k in o if k != "failures"}
@@ -199,7 +201,7 @@ def run(tier):
                             "static buffers up to capacity, heap strings, registry/dealloc layouts seen by a layout-checking allocator, "
                             "has_next/get protocol results); non-trivial = a sequence in which an enumeration is interrupted by a mutating "
                             "call before it is drained (distinct by call list); witness + corpus sequences additionally under valgrind"
-                            % (("1500", 120) if tier == "thorough" else ("160", 60)))
+                            % (("4000", 120) if tier == "thorough" else ("160", 60)))
     res.assumptions = [
         "PARTIAL: the theorems are about the ownership/lifetime/string contract of Model/CapiMem.v; actual loads and stores, the allocator and races with the background dictionary writer are outside the model",
         "valgrind (memcheck) runs of the debug harness and the layout-checking allocator are runtime support, not proof",
